@@ -116,3 +116,13 @@ CHECKS["C07"] = dict(
         "W is the opener's window carried by the open frame; the opening payload and the closing SendAndClose payload debit without waiting",
     ],
 )
+
+CHECKS["C06"] = dict(
+    parts=[dict(pkg="net", run="^TestC06_")], level="exploration",
+    quick=dict(shards=8, checks=60, timeout=900),
+    thorough=dict(shards=16, checks=1200, timeout=3000),
+    assumptions=[
+        "handler panics injected by the harness carry a marker and are not counted as library panics",
+        "schedule coverage is statistical (many short-lived victims with traffic in flight, GOMAXPROCS 1/2/16, generated yields)",
+    ],
+)
